@@ -96,17 +96,18 @@ Qed.
 
 Section WithTok.
   Variable qtok : Q -> str.
+  Variable reo : option (list (list Q)).
 
-  Lemma affine_numbers_to e : CR.affine_numbers (to_members qtok e) = true.
+  Lemma affine_numbers_to e : CR.affine_numbers (to_members_r qtok reo e) = true.
   Proof.
     unfold CR.affine_numbers. rewrite jassoc_affine. unfold aff_jv. apply forallb_forall. intros r Hr.
     apply in_map_iff in Hr as [r0 [<- _]]. unfold row_jv, CR.row_numbers. apply forallb_forall. intros v Hv.
     apply in_map_iff in Hv as [q [<- _]]. reflexivity.
   Qed.
 
-  Theorem valid_rules_to e : valid e -> CR.valid_rules (to_content qtok e) = true.
+  Theorem valid_rules_to e : valid e -> CR.valid_rules (to_content_r qtok reo e) = true.
   Proof.
-    intros Hv. rewrite to_content_members. pose proof (reps_to_content qtok e) as R.
+    intros Hv. rewrite to_content_members_r. pose proof (reps_to_content qtok reo e) as R.
     destruct (reps_rules _ _ R Hv) as [R2 [R3 [R4 [R5 [R6 [R7 R8]]]]]].
     destruct (reps_lit _ _ R Hv) as [L4 [L6 L8]].
     apply CPR.valid_rules_clauses. repeat split; try assumption.
@@ -115,18 +116,18 @@ Section WithTok.
   Qed.
 
   Theorem rules_valid_to e :
-    storable e -> hdr_tight (hdr_of e) -> CR.valid_rules (to_content qtok e) = true -> valid e.
+    storable e -> hdr_tight (hdr_of e) -> CR.valid_rules (to_content_r qtok reo e) = true -> valid e.
   Proof.
-    intros Hst Ht Hr. rewrite to_content_members in Hr. pose proof (reps_to_content qtok e) as R.
+    intros Hst Ht Hr. rewrite to_content_members_r in Hr. pose proof (reps_to_content qtok reo e) as R.
     assert (Hcok : forall k c vs, In (k, (c, vs)) (entries e) -> class_ok (shape (hdr_of e)) c = true).
     { intros k c vs Hin. rewrite <- (Ht c). apply (proj1 Hst _ _ _ Hin). }
     apply (reps_valid_lit _ e R Hr); [|exact Hcok|apply Hst].
-    apply (to_content_nodup qtok e Hst Hcok). apply CPR.rules_accept_spec. exact Hr.
+    apply (to_content_nodup qtok reo e Hst Hcok). apply CPR.rules_accept_spec. exact Hr.
   Qed.
 
   (** on the readings of content dictionaries with tight base dictionaries, validity of the working model and the
       literal format rules coincide *)
   Theorem valid_iff_rules e :
-    storable e -> hdr_tight (hdr_of e) -> (valid e <-> CR.valid_rules (to_content qtok e) = true).
+    storable e -> hdr_tight (hdr_of e) -> (valid e <-> CR.valid_rules (to_content_r qtok reo e) = true).
   Proof. intros Hst Ht. split; [apply valid_rules_to | apply (rules_valid_to e Hst Ht)]. Qed.
 End WithTok.
